@@ -18,10 +18,20 @@
 (*   <<"m", "Method", args..>>        method of the case's object              *)
 (*   <<"om", "pkg.Type", <<values>>, "Method", args..>>   method of another object *)
 (*   <<"f", "pkg.Func", args..>>      package-level function                   *)
-(*   <<"add"|"sub"|"mul"|"div", a, b>>, <<"neg"|"exp"|"log", a>>               *)
+(*   <<"add"|"sub"|"mul"|"div", a, b>>, <<"neg"|"exp"|"log"|"sqrt", a>>        *)
+(*   <<"v", name, i>>                 element i of an environment vector set   *)
+(*                                    by a step of the case (draws, statistics) *)
+(*   <<"fld", "Name">>                exported float64 field of the object     *)
+(*   <<"dist", type, method, l, r>>, <<"mvdist", ..>>, <<"mvm", ..>>            *)
+(*                                    statistical distances / multivariate     *)
+(*                                    objects (FitScoreLaws, MvLaws)           *)
 (* A CHECK is [id, e, k, v, tol]:  k = "rat" (e evaluates to v within the      *)
 (* tolerance class tol), "pinf" | "ninf" | "nan" | "panic" (documented         *)
-(* special outcomes), "sign" (sign of e is v[1]).                              *)
+(* special outcomes), "sign" (sign of e is v[1]), "support" (lo <= e <= hi for  *)
+(* a value or every element of an environment vector), "freq" (the fraction of *)
+(* the elements of a vector that are <= c is within v of p).  A case may carry  *)
+(* steps (let / call / rand / sample / samplemv: a small program run on the     *)
+(* object first) and alts (alternative check lists, one of which must hold).    *)
 (* Tolerance classes (bounds live in the harness, ratios are recorded):        *)
 (*   "exact"    bit-for-bit                                                    *)
 (*   "ops"      a few float operations on exactly representable data: 8 ulp    *)
